@@ -12,6 +12,7 @@ Directives (comment lines starting with `//@`, arguments shell-quoted):
                                                           excluding, the first later line containing LIT2
   //@ extract NAME from FILE anchor "LIT" lines N         N whole lines starting at the anchor line
   //@ rewrite NAME "FROM" => "TO"                         literal replacement, must apply >= 1 time
+  //@ rewrite? NAME "FROM" => "TO"                        same, but may apply 0 times (recorded)
   //@ drop NAME from "LIT_A" through "LIT_B" as "TEXT"    replaces whole lines [line containing LIT_A ..
                                                           line containing LIT_B] by TEXT (recorded as a drop)
   //@ insert NAME before "LIT" : TEXT                     LIT must occur exactly once
@@ -136,9 +137,12 @@ def build(template_path, repo=None):
                 raise ValueError(mode)
             pieces[name] = body
             rec["extracted"].append("%s = %s:%d-%d (%s after anchor %r), %d chars verbatim" % (name, fil, l0, l1, mode, lit, len(body)))
-        elif op == "rewrite":
+        elif op in ("rewrite", "rewrite?"):
             name, frm, to = t[1], t[2], t[4]
             n = pieces[name].count(frm)
+            if n < 1 and op == "rewrite?":
+                rec["rewrites"].append("%s: optional rewrite %r -> %r did not apply" % (name, frm, to))
+                continue
             if n < 1:
                 raise stage.LostAnchor("%s: rewrite source %r not present in %s" % (u.name, frm, name))
             pieces[name] = pieces[name].replace(frm, to)
